@@ -50,6 +50,9 @@ var propMeta = map[string]propInfo{
 	"C10": {Pkg: "agent", Level: "exploration", QuickRuns: 3000, QuickBudgetS: 30,
 		Rule:  "one evaluation = one simulated agent run: 1-14 clients x 1-5 calls (authenticate / add / update / remove / set-admin / list / check, through the agent interface and the sasl, LDAP, basic-auth and API frontends) against the real dispatcher, hooks loop and upgraders; upgrade mode off/local/remote (master delivering, refusing, stalled, slow, 5xx), hooks fast/failing/hanging/unstartable, dispatcher slowness 1-40 (queues fill to capacity); every arrival order and select choice comes from the tape; after the load a fair drain decides exactly whether every call returned; distinct non-trivial = distinct (sequence of dispatcher/hook-loop picks, mode, client and call counts)",
 		Real:  realA, Stub: stubsA, Assumptions: assumeA},
+	"C11": {Pkg: "agent", Level: "exploration", QuickRuns: 2500, QuickBudgetS: 40,
+		Rule:  "one evaluation = one concurrent history: 2-6 clients, <= 34 calls on 1-3 users (every written password unique), through the agent interface and the sasl / LDAP / basic-auth / API frontends, upgrades off or local, dispatcher slowness 1-15; followed on the idle agent by a sequential read-out (every user x every password of the run, list, check) appended to the same history; invoke/return stamps are scheduler step numbers; porcupine decides linearizability against the sequential store model (Unknown = inconclusive, never reported); distinct non-trivial = distinct pick sequences of histories with >= 1 pair of overlapping calls on one user of which at least one is a write",
+		Real:  realA, Stub: stubsA, Assumptions: append([]string{"an internal hash upgrade is invisible to the sequential model (same password, same admin flag)", "porcupine v1.3.0 is the linearizability checker (trusted)"}, assumeA...), Technique: "deterministic simulation (seeded schedules) + porcupine linearizability check of the recorded history"},
 	"C08": {Pkg: "store", Level: "fault_enumeration", QuickRuns: 400, QuickBudgetS: 40,
 		Rule:  "one evaluation = one crash point: for a generated scenario (store with 1-4 reference-written users, aux data of every shape, one init/add/update) EVERY simfs operation boundary of the call and three prefixes inside every write is a crash point; at each, the process-kill image and the power-loss images (all of them when <= limit, else DFS prefix + sampled) are opened with a fresh store and judged by the recovery oracle; distinct non-trivial = distinct (configuration, operation, population, aux size) scenarios swept",
 		Real:  realL, Stub: stubsL, Assumptions: assumeL},
